@@ -8,6 +8,7 @@ import PonyVerif.Gen.QueryShape
 import PonyVerif.Py.Lemmas
 import PonyVerif.Lemmas.Limit
 import PonyVerif.Lemmas.Aggr
+import PonyVerif.Model.QResult
 namespace PonyVerif.Props.C24
 open PonyVerif.Py PonyVerif.Gen PonyVerif.Model.Limit PonyVerif.Model.Aggr
 
@@ -293,7 +294,7 @@ def expectedShape : PonyVerif.Gen.QueryShape.Shape :=
   { getStop := .num 2, getMultipleAbove := 1, existsStop := .num 1, firstStop := .num 1, firstOrdersUnordered := true,
     firstWithoutDistinct := true, randomStop := .name "limit", randomOrder := "random()", nullSumIsZero := true,
     orderByPrepends := true, deleteSubqueryWhere := true, deleteSubqueryGroupBy := true, deleteSubqueryHaving := true,
-    deleteShortFormGuarded := true, subqueryMarksOwner := true }
+    deleteShortFormGuarded := true, subqueryMarksOwner := true, resultFetchesWindow := true }
 
 /-- the source still has the shape the models mirror (breaks when `Query.get/exists/first/random/_aggregate`,
     `order_by_*`, `construct_delete_sql_ast` or the `used_from_subquery` marking of `resolve_name` change) -/
@@ -322,6 +323,61 @@ theorem C24_prefix_lengths_suffice (R : List α) :
 theorem C24_get_needs_two : ∃ R : List Nat,
     (match window (some 1, none) R with | [] => GetResult.none | [x] => .one x | _ => .multiple) ≠ getSpec R :=
   ⟨[1, 2], by decide⟩
+
+/-! ### the list-like result object -/
+section QResult
+open PonyVerif.Model.QResult
+
+/-- Every sequence of list-like method calls on a `QueryResult` (len, indexing, slicing, `in`, `index`, iteration,
+    `reversed`, `==`, in-place `reverse()`), in any order, returns what the same calls return on the Python list of
+    its window — whether the result was created lazily (`limit`, `page`) or fetched at once, and whichever call
+    happened to materialise it. -/
+theorem C24_result_is_list [DecidableEq α] (R : List α) (r : QRes α) (ops : List (Op α)) :
+    run R r ops = runList (force R r) ops := by
+  induction ops generalizing r with
+  | nil => rfl
+  | cons op ops ih =>
+    simp only [run, runList, step]
+    rw [ih]
+    rfl
+
+/-- `q.limit(l, offset=o)` behaves as the list `R[o:][:l]` -/
+theorem C24_lazy_result [DecidableEq α] (R : List α) (l o : Option Nat) (ops : List (Op α)) :
+    run R (lazy l o) ops = runList (window (l, o) R) ops :=
+  C24_result_is_list R (lazy l o) ops
+
+/-- a lazy result is indistinguishable from the eagerly fetched one -/
+theorem C24_lazy_eq_eager [DecidableEq α] (R : List α) (l o : Option Nat) (ops : List (Op α)) :
+    run R (lazy l o) ops = run R (eager R l o) ops := by
+  rw [C24_result_is_list, C24_result_is_list]; rfl
+
+/-- `q.page(n, k)` as an object behaves as the Python list `R[(n-1)*k : n*k]` -/
+theorem C24_page_result [DecidableEq α] (R : List α) (n k : Nat) (hn : 1 ≤ n) (ops : List (Op α)) :
+    run R (lazy (pageT n k).1 (pageT n k).2) ops = runList (pySlice R (some ((n - 1) * k)) (some (n * k))) ops := by
+  rw [C24_lazy_result]
+  show runList (window (pageT n k) R) ops = _
+  rw [C24_page R n k hn]
+
+/-- `q[a:b]` as an object behaves as the Python list `R[a:b]` -/
+theorem C24_slice_result [DecidableEq α] (R : List α) (a b : Option Nat) (ops : List (Op α)) :
+    run R (eager R (getitemT a b).1 (getitemT a b).2) ops = runList (pySlice R a b) ops := by
+  rw [C24_result_is_list]
+  show runList (window (getitemT a b) R) ops = _
+  rw [C24_getitem]
+
+/-- forgetting the offset when a lazy result is forced (`_actual_fetch(self._limit)`) is observable: page 2 of three
+    rows shows the first row instead of the second. -/
+theorem C24_force_needs_offset : ∃ (R : List Nat) (r : QRes Nat), forceNoOffset R r ≠ force R r :=
+  ⟨[1, 2, 3], lazy (some 1) (some 1), by decide⟩
+
+/-- the source forces every result with `(self._limit, self._offset)` -/
+theorem C24_bridge_result_fetch : PonyVerif.Gen.QueryShape.shape.resultFetchesWindow = true := by
+  rw [C24_bridge_query_shape]; rfl
+
+example : run [10, 20, 30, 40, 50] (lazy (some 3) (some 1)) [Op.len, .get 0, .reverse, .get 0, .mem 50, .slice (some 1) none, .get 7]
+    = [Out.nat 3, .item 20, .unit, .item 40, .bool false, .items [30, 20], .error "IndexError"] := by decide
+
+end QResult
 
 /-! ### non-vacuity: concrete instances -/
 example : window (combineT (some 5) (some 1) (some 2) (some 3)) [0,1,2,3,4,5,6,7,8,9] = [4, 5] := by decide
